@@ -133,7 +133,7 @@ def run(tier):
                 res.sample({"manager_trace": [[e["ev"], e["r"], e["d"], e["res"]] for e in json.loads(ls[0])["events"]]})
 
         # 6. shutdown with a full request queue: RequestQueue.tla + the schedule of its rejected variant on the real manager
-        consts = {"Cap": 2 if quick else 3, "Adders": {q("a1"), q("a2")} | (set() if quick else {q("a3")}), "MaxAdds": 3,
+        consts = {"Cap": 2 if quick else 4, "Adders": {q("a1"), q("a2")} | (set() if quick else {q("a3")}), "MaxAdds": 3 if quick else 5,
                   "Order": q("conn")}
         out, st = run_tlc(scratch, "RequestQueue", cfg(consts, spec="Spec", invariants=["TypeOK", "MutexHeld"],
                                                        properties=["StopCompletes", "NobodyLeftBlocked"]),
